@@ -227,7 +227,7 @@ class C04(Check):
             stats["timeouts"] += 1
         stats["crashes"] += 1
         key = {"clause": "crash_" + cls, "flavour": job["flavour"]}
-        self.add_finding(key, "worker died (%s) running a C04 program in flavour %s: %s" % (cls, job["flavour"], r.get("stderr", "")[-300:]),
+        self.add_finding(key, "worker died (%s) running a C04 program in flavour %s: %s" % (cls, job["flavour"], simdrv.crash_summary(r)),
                          {"property": "C04", "crash": True, "flavour": job["flavour"], "args": job["args"]})
 
     def confirm_at_shipped(self, key, replay, step):
